@@ -83,7 +83,7 @@ def rich_pair(rnd):
                     return None
                 if k in ('int64', 'uint8', 'bool', 'int_extreme'):
                     return None                     # a null would change the dtype as well
-                act.loc[act.index[i], c] = None if k in ('object_str', 'objbool', 'dateobj', 'many_cats', 'allnull_obj', 'longtext') else (
+                act.loc[act.index[i], c] = rnd.choice([None, None, pd.NA]) if k in ('object_str', 'objbool', 'dateobj', 'many_cats', 'allnull_obj', 'longtext') else (
                     pd.NaT if k.startswith('dt_') else (np.nan if k in ('float64', 'float_special', 'allnull_float') else pd.NA))
             else:
                 if pd.isna(old):
